@@ -43,14 +43,22 @@ def _alarm(signum, frame):
 
 @contextmanager
 def deadline(seconds: float):
-    """Per-case horizon: an execution that does not finish is reported, never waited for."""
-    old = signal.signal(signal.SIGALRM, _alarm)
-    signal.setitimer(signal.ITIMER_REAL, seconds)
+    """Per-case horizon: an execution that does not finish is reported, never waited for.
+
+    The horizon is measured in CPU time of this process (ITIMER_VIRTUAL), so a loaded machine cannot turn a slow but
+    terminating execution into an alarm; a wall-clock timer 30 times as long backs it up for executions that block
+    without using the CPU."""
+    old_v = signal.signal(signal.SIGVTALRM, _alarm)
+    old_r = signal.signal(signal.SIGALRM, _alarm)
+    signal.setitimer(signal.ITIMER_VIRTUAL, seconds)
+    signal.setitimer(signal.ITIMER_REAL, seconds * 30)
     try:
         yield
     finally:
+        signal.setitimer(signal.ITIMER_VIRTUAL, 0)
         signal.setitimer(signal.ITIMER_REAL, 0)
-        signal.signal(signal.SIGALRM, old)
+        signal.signal(signal.SIGVTALRM, old_v)
+        signal.signal(signal.SIGALRM, old_r)
 
 
 class Res:
